@@ -50,7 +50,9 @@ theorem successors_live : OpsTable.table.all (fun r => r.succLive) = true := by 
 
 /-- the table covers all 54 instruction and 12 terminator kinds -/
 theorem table_is_complete :
-    (OpsTable.table.filter (fun r => r.ty.startsWith "Inst")).length = 54 ∧
-    (OpsTable.table.filter (fun r => r.ty.startsWith "Term")).length = 12 := by decide +kernel
+    (OpsTable.table.filter (fun r => r.ty.startsWith "Inst" && !r.flags)).length = 54 ∧
+    (OpsTable.table.filter (fun r => r.ty.startsWith "Term" && !r.flags)).length = 12 ∧
+    (OpsTable.table.filter (fun r => r.ty.startsWith "Inst" && r.flags)).length = 54 ∧
+    (OpsTable.table.filter (fun r => r.ty.startsWith "Term" && r.flags)).length = 12 := by decide +kernel
 
 end Llir.Props.C15
